@@ -505,13 +505,16 @@ fn reopen_one<A: Allocator>(dir: &str, tag: &str, fl: Freelist, reserved: u32, b
     }
   };
   // read-only modes first (they must not change the file)
-  for (mode, capo) in [("map", None), ("map_copy_read_only", None), ("map", Some(2 * cap)), ("map_copy_read_only", Some(cap / 2)), ("map", Some(cap))] {
+  for (mode, capo, leftover) in [("map", None, false), ("map_copy_read_only", None, false), ("map", Some(2 * cap), false), ("map_copy_read_only", Some(cap / 2), false), ("map", Some(cap), false),
+                                 ("map", None, true), ("map_copy_read_only", Some(cap), true)] {
     let r = unsafe {
       let o = Options::new().with_reserved(reserved).with_magic_version(7).with_read(true);
+      // flags left over from a writable session must not matter for a read-only open
+      let o = if leftover { o.with_write(true).with_truncate(true).with_create(true) } else { o };
       let o = if let Some(c) = capo { o.with_capacity(c) } else { o };
       if mode == "map" { o.map::<A, _>(&p) } else { o.map_copy_read_only::<A, _>(&p) }
     };
-    let mode = &format!("{mode} capacity={capo:?}")[..];
+    let mode = &format!("{mode} capacity={capo:?} leftover-write-flags={leftover}")[..];
     match r {
       Ok(a) => {
         if capo.map_or(true, |c| c as usize >= before.allocated) {
